@@ -149,6 +149,19 @@ func captureSlotsInUse(codes []int, capsize int) []bool {
 	return inUse
 }
 
+// UsesStartAnchor reports whether the program contains a \G anchor, i.e. whether its
+// result depends on the position the search was started from.
+func (c *Code) UsesStartAnchor() bool {
+	for pos := 0; pos < len(c.Codes); {
+		op := InstOp(c.Codes[pos]) & Mask
+		if op == Start {
+			return true
+		}
+		pos += opcodeSize(op)
+	}
+	return false
+}
+
 // PrepareCharSetASCIIBitmaps builds bounded ASCII lookup tables for compiled
 // character classes before the regexp is shared across goroutines.
 func (c *Code) PrepareCharSetASCIIBitmaps() {
